@@ -160,7 +160,11 @@ func TestC15bStoredValues(t *testing.T) {
 			if len(adoptFaults) == 0 && rapid.IntRange(0, 3).Draw(rt, "misconfiguredRestartFirst") == 0 {
 				preLimits = 1
 			}
-			n, _ := h.restart(restartOpts{K: h.Store.NOps(), Late: true, Config: cfg, AdoptFailNext: adoptFaults, PreAdoptLimits: preLimits, Mutate: func(store map[uint][]byte) {
+			// (the adopting process may ask for a clean session: the records and
+			// the identifier are the stored ones all the same)
+			cfgAdopt := cfg
+			cfgAdopt.CleanSession = rapid.IntRange(0, 2).Draw(rt, "adoptWithCleanSession") == 0
+			n, _ := h.restart(restartOpts{K: h.Store.NOps(), Late: true, Config: cfgAdopt, AdoptFailNext: adoptFaults, PreAdoptLimits: preLimits, Mutate: func(store map[uint][]byte) {
 				v := append([]byte{}, store[key]...)
 				if short >= 0 {
 					store[key] = v[:short]
